@@ -931,6 +931,14 @@ def run(rep, tier):
         rep.sample({"chain": chain, "observed": repr(items[-1][1][2])[:400]})
     _t["random_run_s"] = round(_time.time() - _t["start"] - _t["lattice_run_s"], 1)
     unsafe_sites = site_status(rep) if model_ok else None
+    try:
+        from harness.genmods import c01_enum_guard as EG
+        _txt, gstatus = EG.render()
+        rep.cov["generated_guards_enum"] = gstatus
+        rep.obligation("regen:Gen/GuardsEnum.v", all(v == "ok" for v in gstatus.values()),
+                       "; ".join("%s: %s" % kv for kv in sorted(gstatus.items())))
+    except Exception as ex:  # noqa
+        rep.obligation("regen:Gen/GuardsEnum.v", False, repr(ex))
     if model_ok:
         r = None
         try:
